@@ -4,7 +4,10 @@ go 1.23
 
 require golang.org/x/tools v0.29.0
 
+require golang.org/x/sys v0.29.0 // indirect
+
 require (
+	golang.org/x/crypto v0.24.0
 	golang.org/x/mod v0.22.0 // indirect
 	golang.org/x/sync v0.10.0 // indirect
 )
